@@ -62,7 +62,7 @@ def box_line(rng, n, mode):
 
 
 def generate(rng, tier):
-    n = {"quick": 400, "thorough": 12000, "search": 4000}.get(tier, 400)
+    n = {"quick": 800, "thorough": 12000, "search": 4000}.get(tier, 400)
     cases = []
     for i in range(n):
         k = rng.choice([0, 1, 2, 3, 5, 8, 12, 20, 40]) if i % 3 == 0 else rng.randint(0, 40)
